@@ -922,3 +922,16 @@ m('c16-fixed-point-assumes-no-carry', ['C16'], 'format_ascii_digits_with_integer
 m('c16-fixed-point-one-zero-too-many', ['C16'], 'format_ascii_digits_with_integer_and_fraction:scale-bookkeeping', [
   ('src/impl_fmt.rs', "        let trailing_zero_count = (target_scale - digit_scale)\n", "        let trailing_zero_count = (target_scale - digit_scale + 1)\n")],
   'one padding zero too many')
+# ---- C16 pure-fraction layout
+m('c16-no-integer-dest-len', ['C16'], 'format_ascii_digits_no_integer:layout[', [
+  ('src/impl_fmt.rs', "            let dest_len = target_scale as usize + 2;", "            let dest_len = target_scale as usize + 1;")],
+  'output one byte short: the last requested digit is lost')
+m('c16-no-integer-sig-count', ['C16'], 'format_ascii_digits_no_integer:layout[', [
+  ('src/impl_fmt.rs', "    let leading_zeros = scale - digits_ascii_be.len() as u64;", "    let leading_zeros = scale - digits_ascii_be.len() as u64 + 1;")],
+  'leading zeros over-counted by one: one significant digit too few is kept')
+m('c16-no-integer-insig-digit-always-first', ['C16'], 'format_ascii_digits_no_integer:layout[insignificant-digit', [
+  ('src/impl_fmt.rs', "            let (insig_digit, trailing_digits) = if intermediate_zeros > 0 {\n                (0, digits_ascii_be.as_slice())", "            let (insig_digit, trailing_digits) = if intermediate_zeros > 1 {\n                (0, digits_ascii_be.as_slice())")],
+  'with one zero between the rounding point and the digits the first digit is taken as the insignificant digit')
+m('c16-no-integer-trailing-zeros-from-scale', ['C16'], 'format_ascii_digits_no_integer:layout[digits-destination]', [
+  ('src/impl_fmt.rs', "            let trailing_zeros = target_scale - digit_scale;", "            let trailing_zeros = target_scale - scale.min(target_scale);")],
+  'trailing zero count computed from the scale before rounding: digits land one place too far left after a carry')
